@@ -144,6 +144,10 @@ macro_rules! lat_exact {
         }
     };
 }
+
+// (cutting a zone into quarters of the even count does not make the pieces cheaper: a quarter was still running after 13 min;
+// the latitude-exactness harnesses are thorough-tier)
+
 include!("gen/c04_lat.rs");
 
 macro_rules! lon_exact {
